@@ -130,7 +130,14 @@ class C07(core.Check):
                 queries.append(dict(q=gen_iquery(rng), sub=rng.random() < 0.35, sel=rng.random()))
             cases.append(dict(flags=[rng.random() < 0.6 for _ in range(4)], attr_indexes=[a] if i % 3 else [], first=c06.gen_doc(rng, 6) if i % 4 == 0 else None,
                               toks=toks, edits=edits, reconf=reconf, final=True, queries=queries))
-        self.stats.update(histories=n, directed_attribute_index_histories=nd)
+        # directed: the document comes in through the constructor's filename argument or parseFile and is searched at once
+        ne = 16 if self.tier == 'quick' else 200
+        for i in range(ne):
+            toks = c06.gen_doc(rng, 14 if self.tier == 'quick' else 40, multi=rng.random() < 0.1)
+            queries = [dict(q=gen_iquery(rng), sub=rng.random() < 0.35, sel=rng.random()) for _ in range(10)]
+            cases.append(dict(flags=[bool((i >> b) & 1) for b in range(4)] if i < 16 else [rng.random() < 0.6 for _ in range(4)], attr_indexes=[], first=None,
+                              toks=toks, edits=[], reconf=[], final=False, queries=queries, via=['ctor', 'file'][i % 2] if i % 3 else 'ctor'))
+        self.stats.update(histories=n, directed_attribute_index_histories=nd, directed_file_entry_histories=ne)
         return cases
 
     # ------------------------------------------------------------------ executing a history
